@@ -205,3 +205,470 @@ Proof.
   destruct (negb (area_ok area)); [discriminate|]. intros H. injection H as <-.
   eexists; split; [reflexivity|]. apply filter_compl_perm. apply selected_partition.
 Qed.
+
+(* ------------------------------------------------------------------------------------------ *)
+(* 4. one edge: horizontal / upward / downward                                                 *)
+(* ------------------------------------------------------------------------------------------ *)
+Lemma contrib_horiz a b c p : vy a == vy b -> edge_contrib p (a, b, c) = 0%Z.
+Proof.
+  intros H. unfold edge_contrib, edge_inc, edge_dec.
+  destruct (Qleb_spec (vy a) (py p)), (Qltb_spec (py p) (vy b)), (Qltb_spec (py p) (vy a)), (Qleb_spec (vy b) (py p));
+    cbn; try reflexivity; exfalso; lra.
+Qed.
+
+Lemma contrib_up a b c p : vy c == vy b -> vy a < vy b ->
+  edge_contrib p (a, b, c) =
+  (if Qleb (vy a) (py p) && Qltb (py p) (vy b) && Qltb 0 (pcross a b p) then 1 else 0)%Z.
+Proof.
+  intros Hc H. unfold edge_contrib, edge_inc, edge_dec.
+  destruct (edge_valid_iff_cross a b c p Hc) as [V _]. specialize (V H).
+  destruct (Qltb_spec 0 (pcross a b p)) as [K|K].
+  - apply V in K. rewrite K.
+    destruct (Qleb_spec (vy a) (py p)), (Qltb_spec (py p) (vy b)), (Qltb_spec (py p) (vy a)), (Qleb_spec (vy b) (py p));
+      cbn; try reflexivity; exfalso; lra.
+  - destruct (edge_valid a b c p); [exfalso; apply K, V; reflexivity|].
+    rewrite !andb_false_r. reflexivity.
+Qed.
+
+Lemma contrib_down a b c p : vy c == vy b -> vy b < vy a ->
+  edge_contrib p (a, b, c) =
+  (if Qltb (py p) (vy a) && Qleb (vy b) (py p) && Qltb (pcross a b p) 0 then -1 else 0)%Z.
+Proof.
+  intros Hc H. unfold edge_contrib, edge_inc, edge_dec.
+  destruct (edge_valid_iff_cross a b c p Hc) as [_ V]. specialize (V H).
+  destruct (Qltb_spec (pcross a b p) 0) as [K|K].
+  - apply V in K. rewrite K.
+    destruct (Qleb_spec (vy a) (py p)), (Qltb_spec (py p) (vy b)), (Qltb_spec (py p) (vy a)), (Qleb_spec (vy b) (py p));
+      cbn; try reflexivity; exfalso; lra.
+  - destruct (edge_valid a b c p); [exfalso; apply K, V; reflexivity|].
+    rewrite !andb_false_r. reflexivity.
+Qed.
+
+(* ------------------------------------------------------------------------------------------ *)
+(* 5. the rotated rectangle                                                                    *)
+(* ------------------------------------------------------------------------------------------ *)
+(* V0..V3: the ring (+a,+b) (-a,+b) (-a,-b) (+a,-b) of a rectangle with centre (cx,cy), direction
+   (c,s) (any non-zero vector) and half extents a, b; Wi: the raw "next row" read by the
+   horizontal-edge test (same y as Vi); p: the point with local coordinates (u, v). *)
+Definition rect_frame (V0 V1 V2 V3 W0 W1 W2 W3 : vertex) (p : point) (cx cy c s a b u v : Q) : Prop :=
+  (vx V0 == cx + c * a - s * b /\ vy V0 == cy + s * a + c * b) /\
+  (vx V1 == cx - c * a - s * b /\ vy V1 == cy - s * a + c * b) /\
+  (vx V2 == cx - c * a + s * b /\ vy V2 == cy - s * a - c * b) /\
+  (vx V3 == cx + c * a + s * b /\ vy V3 == cy + s * a - c * b) /\
+  (vy W0 == vy V0 /\ vy W1 == vy V1 /\ vy W2 == vy V2 /\ vy W3 == vy V3) /\
+  (px p == cx + c * u - s * v /\ py p == cy + s * u + c * v).
+
+Definition contrib4 (V0 V1 V2 V3 W0 W1 W2 W3 : vertex) (p : point) : Z :=
+  (edge_contrib p (V0, V1, W1) + edge_contrib p (V1, V2, W2) +
+   edge_contrib p (V2, V3, W3) + edge_contrib p (V3, V0, W0))%Z.
+
+Definition rect_concl (V0 V1 V2 V3 W0 W1 W2 W3 : vertex) (p : point) (a b u v : Q) : Prop :=
+  (- a < u /\ u < a /\ - b < v /\ v < b -> contrib4 V0 V1 V2 V3 W0 W1 W2 W3 p = 1%Z) /\
+  (a < u \/ u < - a \/ b < v \/ v < - b -> contrib4 V0 V1 V2 V3 W0 W1 W2 W3 p = 0%Z).
+
+Lemma Qltb_ext a b c d : (a < b <-> c < d) -> Qltb a b = Qltb c d.
+Proof. intros H. destruct (Qltb_spec a b), (Qltb_spec c d); auto; exfalso; tauto. Qed.
+
+Lemma sign_neg k x : 0 < k -> (k * x < 0 <-> x < 0).
+Proof. intros; split; intro; nra. Qed.
+Lemma sign_pos k x : 0 < k -> (0 < k * x <-> 0 < x).
+Proof. intros; split; intro; nra. Qed.
+Lemma mul_lt_iff k x y : 0 < k -> (k * x < k * y <-> x < y).
+Proof. intros; split; intro; nra. Qed.
+
+Ltac split_all :=
+  repeat (match goal with
+          | |- context [Qltb ?x ?y] => destruct (Qltb_spec x y)
+          | |- context [Qleb ?x ?y] => destruct (Qleb_spec x y)
+          end; cbn [andb]; try (exfalso; lra)).
+
+Section Rect.
+  Variables (V0 V1 V2 V3 W0 W1 W2 W3 : vertex) (p : point) (cx cy c s a b u v : Q).
+  Hypothesis F : rect_frame V0 V1 V2 V3 W0 W1 W2 W3 p cx cy c s a b u v.
+  Hypothesis Ha : 0 < a.
+  Hypothesis Hb : 0 < b.
+
+  Let N := c * c + s * s.
+
+  Lemma cross0 : pcross V0 V1 p == (2 * N * a) * (b - v).
+  Proof.
+    destruct F as ((X0 & Y0) & (X1 & Y1) & _ & _ & _ & (PX & PY)).
+    unfold pcross, cross, N. rewrite X0, Y0, X1, Y1, PX, PY. ring.
+  Qed.
+  Lemma cross1 : pcross V1 V2 p == (2 * N * b) * (u + a).
+  Proof.
+    destruct F as (_ & (X1 & Y1) & (X2 & Y2) & _ & _ & (PX & PY)).
+    unfold pcross, cross, N. rewrite X1, Y1, X2, Y2, PX, PY. ring.
+  Qed.
+  Lemma cross2 : pcross V2 V3 p == (2 * N * a) * (v + b).
+  Proof.
+    destruct F as (_ & _ & (X2 & Y2) & (X3 & Y3) & _ & (PX & PY)).
+    unfold pcross, cross, N. rewrite X2, Y2, X3, Y3, PX, PY. ring.
+  Qed.
+  Lemma cross3 : pcross V3 V0 p == (2 * N * b) * (a - u).
+  Proof.
+    destruct F as ((X0 & Y0) & _ & _ & (X3 & Y3) & _ & (PX & PY)).
+    unfold pcross, cross, N. rewrite X0, Y0, X3, Y3, PX, PY. ring.
+  Qed.
+
+  (* general position: c > 0, s > 0 *)
+  Lemma rect_base_q1 : 0 < c -> 0 < s -> rect_concl V0 V1 V2 V3 W0 W1 W2 W3 p a b u v.
+  Proof.
+    intros Hc Hs.
+    assert (HN : 0 < N) by (unfold N; nra).
+    assert (Ka : 0 < 2 * N * a) by nra. assert (Kb : 0 < 2 * N * b) by nra.
+    assert (Psa : 0 < s * a) by nra. assert (Pcb : 0 < c * b) by nra.
+    assert (C0 : pcross V0 V1 p < 0 <-> c * b < c * v).
+    { rewrite cross0, (sign_neg _ _ Ka), (mul_lt_iff c b v Hc). split; intro; lra. }
+    assert (C1 : pcross V1 V2 p < 0 <-> s * u < - (s * a)).
+    { rewrite cross1, (sign_neg _ _ Kb). assert (E : - (s * a) == s * (- a)) by ring. rewrite E, (mul_lt_iff s u (- a) Hs).
+      split; intro; lra. }
+    assert (C2 : 0 < pcross V2 V3 p <-> - (c * b) < c * v).
+    { rewrite cross2, (sign_pos _ _ Ka). assert (E : - (c * b) == c * (- b)) by ring. rewrite E, (mul_lt_iff c (- b) v Hc).
+      split; intro; lra. }
+    assert (C3 : 0 < pcross V3 V0 p <-> s * u < s * a).
+    { rewrite cross3, (sign_pos _ _ Kb), (mul_lt_iff s u a Hs). split; intro; lra. }
+    destruct F as ((X0 & Y0) & (X1 & Y1) & (X2 & Y2) & (X3 & Y3) & (Z0 & Z1 & Z2 & Z3) & (PX & PY)).
+    unfold rect_concl, contrib4.
+    rewrite (contrib_down V0 V1 W1 p Z1) by lra.
+    rewrite (contrib_down V1 V2 W2 p Z2) by lra.
+    rewrite (contrib_up V2 V3 W3 p Z3) by lra.
+    rewrite (contrib_up V3 V0 W0 p Z0) by lra.
+    rewrite (Qltb_ext _ _ _ _ C0), (Qltb_ext _ _ _ _ C1), (Qltb_ext _ _ _ _ C2), (Qltb_ext _ _ _ _ C3).
+    split.
+    - intros (U1 & U2 & V1' & V2').
+      assert (s * (- a) < s * u) by (apply mul_lt_iff; assumption).
+      assert (s * u < s * a) by (apply mul_lt_iff; assumption).
+      assert (c * (- b) < c * v) by (apply mul_lt_iff; assumption).
+      assert (c * v < c * b) by (apply mul_lt_iff; assumption).
+      assert (s * (- a) == - (s * a)) by ring. assert (c * (- b) == - (c * b)) by ring.
+      split_all; reflexivity.
+    - intros [U|[U|[U|U]]].
+      + assert (s * a < s * u) by (apply mul_lt_iff; assumption). split_all; reflexivity.
+      + assert (s * u < s * (- a)) by (apply mul_lt_iff; assumption). assert (s * (- a) == - (s * a)) by ring.
+        split_all; reflexivity.
+      + assert (c * b < c * v) by (apply mul_lt_iff; assumption). split_all; reflexivity.
+      + assert (c * v < c * (- b)) by (apply mul_lt_iff; assumption). assert (c * (- b) == - (c * b)) by ring.
+        split_all; reflexivity.
+  Qed.
+
+  (* axis-aligned: c > 0, s = 0 (edges 0 and 2 are horizontal) *)
+  Lemma rect_base_axis : 0 < c -> s == 0 -> rect_concl V0 V1 V2 V3 W0 W1 W2 W3 p a b u v.
+  Proof.
+    intros Hc Hs.
+    assert (HN : 0 < N) by (unfold N; nra).
+    assert (Kb : 0 < 2 * N * b) by nra.
+    assert (Pcb : 0 < c * b) by nra. assert (Pca : 0 < c * a) by nra.
+    assert (Sa : s * a == 0) by (rewrite Hs; ring). assert (Sb : s * b == 0) by (rewrite Hs; ring).
+    assert (Su : s * u == 0) by (rewrite Hs; ring). assert (Sv : s * v == 0) by (rewrite Hs; ring).
+    assert (C1 : pcross V1 V2 p < 0 <-> c * u < - (c * a)).
+    { rewrite cross1, (sign_neg _ _ Kb). assert (E : - (c * a) == c * (- a)) by ring. rewrite E, (mul_lt_iff c u (- a) Hc).
+      split; intro; lra. }
+    assert (C3 : 0 < pcross V3 V0 p <-> c * u < c * a).
+    { rewrite cross3, (sign_pos _ _ Kb), (mul_lt_iff c u a Hc). split; intro; lra. }
+    destruct F as ((X0 & Y0) & (X1 & Y1) & (X2 & Y2) & (X3 & Y3) & (Z0 & Z1 & Z2 & Z3) & (PX & PY)).
+    unfold rect_concl, contrib4.
+    rewrite (contrib_horiz V0 V1 W1 p) by lra.
+    rewrite (contrib_down V1 V2 W2 p Z2) by lra.
+    rewrite (contrib_horiz V2 V3 W3 p) by lra.
+    rewrite (contrib_up V3 V0 W0 p Z0) by lra.
+    rewrite (Qltb_ext _ _ _ _ C1), (Qltb_ext _ _ _ _ C3).
+    split.
+    - intros (U1 & U2 & V1' & V2').
+      assert (c * (- a) < c * u) by (apply mul_lt_iff; assumption).
+      assert (c * u < c * a) by (apply mul_lt_iff; assumption).
+      assert (c * (- b) < c * v) by (apply mul_lt_iff; assumption).
+      assert (c * v < c * b) by (apply mul_lt_iff; assumption).
+      assert (c * (- a) == - (c * a)) by ring. assert (c * (- b) == - (c * b)) by ring.
+      split_all; reflexivity.
+    - intros [U|[U|[U|U]]].
+      + assert (c * a < c * u) by (apply mul_lt_iff; assumption). split_all; reflexivity.
+      + assert (c * u < c * (- a)) by (apply mul_lt_iff; assumption). assert (c * (- a) == - (c * a)) by ring.
+        split_all; reflexivity.
+      + assert (c * b < c * v) by (apply mul_lt_iff; assumption). split_all; reflexivity.
+      + assert (c * v < c * (- b)) by (apply mul_lt_iff; assumption). assert (c * (- b) == - (c * b)) by ring.
+        split_all; reflexivity.
+  Qed.
+
+  Lemma rect_base : 0 < c -> 0 <= s -> rect_concl V0 V1 V2 V3 W0 W1 W2 W3 p a b u v.
+  Proof.
+    intros Hc Hs. destruct (Qlt_le_dec 0 s) as [K|K]; [apply rect_base_q1; assumption|].
+    apply rect_base_axis; [assumption|lra].
+  Qed.
+End Rect.
+
+(* a quarter turn of the parametrisation is a cyclic shift of the ring *)
+Lemma rect_frame_rot V0 V1 V2 V3 W0 W1 W2 W3 p cx cy c s a b u v :
+  rect_frame V0 V1 V2 V3 W0 W1 W2 W3 p cx cy c s a b u v ->
+  rect_frame V1 V2 V3 V0 W1 W2 W3 W0 p cx cy (- s) c b a v (- u).
+Proof.
+  intros ((X0 & Y0) & (X1 & Y1) & (X2 & Y2) & (X3 & Y3) & (Z0 & Z1 & Z2 & Z3) & (PX & PY)).
+  unfold rect_frame. repeat split; try assumption; lra.
+Qed.
+
+Lemma rect_concl_rot V0 V1 V2 V3 W0 W1 W2 W3 p a b u v :
+  rect_concl V1 V2 V3 V0 W1 W2 W3 W0 p b a v (- u) ->
+  rect_concl V0 V1 V2 V3 W0 W1 W2 W3 p a b u v.
+Proof.
+  unfold rect_concl, contrib4. intros [I O]. split.
+  - intros (U1 & U2 & V1' & V2'). rewrite <- I by (repeat split; lra). lia.
+  - intros H. rewrite <- O by (destruct H as [H|[H|[H|H]]]; lra). lia.
+Qed.
+
+(* all rotations *)
+Theorem rect_contrib V0 V1 V2 V3 W0 W1 W2 W3 p cx cy c s a b u v :
+  rect_frame V0 V1 V2 V3 W0 W1 W2 W3 p cx cy c s a b u v ->
+  0 < a -> 0 < b -> ~ (c == 0 /\ s == 0) ->
+  rect_concl V0 V1 V2 V3 W0 W1 W2 W3 p a b u v.
+Proof.
+  intros F Ha Hb Hcs.
+  destruct (Qlt_le_dec 0 c) as [C|C]; destruct (Qlt_le_dec 0 s) as [S|S].
+  - (* c > 0, s > 0 *) eapply rect_base; eauto; lra.
+  - (* c > 0, s <= 0 *)
+    destruct (Qlt_le_dec s 0) as [S'|S']; [|eapply rect_base; eauto; lra].
+    apply rect_concl_rot. eapply rect_base; [apply rect_frame_rot; exact F| | | |]; lra.
+  - (* c <= 0, s > 0: three quarter turns *)
+    apply rect_concl_rot, rect_concl_rot, rect_concl_rot.
+    eapply rect_base; [apply rect_frame_rot, rect_frame_rot, rect_frame_rot; exact F| | | |]; lra.
+  - (* c <= 0, s <= 0 *)
+    destruct (Qlt_le_dec c 0) as [C'|C'].
+    + apply rect_concl_rot, rect_concl_rot.
+      eapply rect_base; [apply rect_frame_rot, rect_frame_rot; exact F| | | |]; lra.
+    + destruct (Qlt_le_dec s 0) as [S'|S']; [|exfalso; apply Hcs; split; lra].
+      apply rect_concl_rot. eapply rect_base; [apply rect_frame_rot; exact F| | | |]; lra.
+Qed.
+
+(* ------------------------------------------------------------------------------------------ *)
+(* 6. from the ring to [selected] on the 8 box corners                                         *)
+(* ------------------------------------------------------------------------------------------ *)
+Lemma edges_8 (v0 v1 v2 v3 v4 v5 v6 v7 : vertex) :
+  edges [v0; v1; v2; v3; v4; v5; v6; v7] = [(v0, v1, v1); (v1, v2, v2); (v2, v3, v3); (v3, v0, v4)].
+Proof. reflexivity. Qed.
+
+Lemma wn_ring4 V0 V1 V2 V3 L0 L1 L2 L3 p :
+  wn_edges (edges [V0; V1; V2; V3; L0; L1; L2; L3]) p = u8 (contrib4 V0 V1 V2 V3 L0 V1 V2 V3 p).
+Proof.
+  rewrite edges_8, wn_edges_sum. unfold contrib4. cbn [contrib_sum]. f_equal. lia.
+Qed.
+
+Lemma zrange8 V0 V1 V2 V3 L0 L1 L2 L3 zt zb :
+  vz V0 == zt -> vz V1 == zt -> vz V2 == zt -> vz V3 == zt ->
+  vz L0 == zb -> vz L1 == zb -> vz L2 == zb -> vz L3 == zb -> zb <= zt ->
+  zmin_of V0 [V1; V2; V3; L0; L1; L2; L3] == zb /\ zmax_of V0 [V1; V2; V3; L0; L1; L2; L3] == zt.
+Proof.
+  intros. unfold zmin_of, zmax_of. cbn [fold_left]. split; q_cases; lra.
+Qed.
+
+Lemma qabs_lt x A : qabs x < A <-> - A < x /\ x < A.
+Proof. unfold qabs. destruct (Qltb_spec x 0); split; intros; try split; lra. Qed.
+Lemma qabs_gt x A : 0 <= A -> (A < qabs x <-> A < x \/ x < - A).
+Proof. unfold qabs. intros HA. destruct (Qltb_spec x 0); split; intros; try lra. Qed.
+
+Definition z_in (z h : Q) (rest : list Q) : Prop :=
+  match rest with [] => True | pz :: _ => z - h / 2 <= pz /\ pz <= z + h / 2 end.
+Definition z_out (z h : Q) (rest : list Q) : Prop :=
+  match rest with [] => False | pz :: _ => pz < z - h / 2 \/ z + h / 2 < pz end.
+
+Theorem rect_inside_iff_slabs (x y z w l h c s k u v : Q) (p : point) :
+  0 < w -> 0 < l -> 0 <= h -> 0 < k -> ~ (c == 0 /\ s == 0) ->
+  px p == c * u - s * v + x -> py p == s * u + c * v + y ->
+  let b := yaw_box x y z w l h c s in
+  (qabs u < k * (l / 2) /\ qabs v < k * (w / 2) /\ z_in z h (prest p) -> box_selected b k true p = true) /\
+  (k * (l / 2) < qabs u \/ k * (w / 2) < qabs v \/ z_out z h (prest p) -> box_selected b k true p = false).
+Proof.
+  intros Hw Hl Hh Hk Hcs PX PY b.
+  unfold box_selected, b, box_corners, yaw_box, footprint_local.
+  cbn [map app to_world fst snd b_x b_y b_z b_w b_l b_h b_r00 b_r01 b_r10 b_r11].
+  match goal with |- context [selected [?v0; ?v1; ?v2; ?v3; ?v4; ?v5; ?v6; ?v7] true p] =>
+    set (V0 := v0); set (V1 := v1); set (V2 := v2); set (V3 := v3);
+    set (L0 := v4); set (L1 := v5); set (L2 := v6); set (L3 := v7) end.
+  set (a := l / 2 * k). set (bb := w / 2 * k).
+  assert (Ha : 0 < a) by (unfold a; apply Qmult_lt_0_compat; [apply Qlt_shift_div_l; lra|assumption]).
+  assert (Hb : 0 < bb) by (unfold bb; apply Qmult_lt_0_compat; [apply Qlt_shift_div_l; lra|assumption]).
+  assert (Hh2 : 0 <= h / 2) by (apply Qle_shift_div_l; lra).
+  assert (F : rect_frame V0 V1 V2 V3 L0 V1 V2 V3 p x y c s a bb u v).
+  { unfold rect_frame, V0, V1, V2, V3, L0, vred, vx, vy, a, bb. cbn [fst snd].
+    rewrite !Qred_correct. repeat split; try reflexivity; try assumption; try (field; lra); try lra. }
+  pose proof (rect_contrib _ _ _ _ _ _ _ _ _ _ _ _ _ _ _ _ _ F Ha Hb Hcs) as [In Out].
+  destruct (zrange8 V0 V1 V2 V3 L0 L1 L2 L3 (z + h / 2) (z - h / 2)) as [Zmin Zmax];
+    try (unfold V0, V1, V2, V3, L0, L1, L2, L3, vred, vz; cbn [fst snd]; rewrite Qred_correct; reflexivity); [lra|].
+  assert (EA : k * (l / 2) == a) by (unfold a; ring). assert (EB : k * (w / 2) == bb) by (unfold bb; ring).
+  unfold selected. cbv beta iota zeta. rewrite wn_ring4. fold V0 V1 V2 V3 L0 L1 L2 L3.
+  assert (D : forall A, 0 <= A -> (A < qabs u <-> A < u \/ u < - A)) by (intros; apply qabs_gt; assumption).
+  assert (D' : forall A, 0 <= A -> (A < qabs v <-> A < v \/ v < - A)) by (intros; apply qabs_gt; assumption).
+  rewrite EA, EB. rewrite !qabs_lt. rewrite (D a), (D' bb) by lra.
+  destruct (prest p) as [|pz r]; cbn [z_in z_out].
+  - split.
+    + intros (U & V & _). rewrite In by tauto. reflexivity.
+    + intros [U|[V|[]]]; rewrite Out by tauto; reflexivity.
+  - rewrite Zmin, Zmax. split.
+    + intros (U & V & Z). rewrite In by tauto. cbn [xy_sel u8 andb].
+      destruct (Qleb_spec (z - h / 2) pz), (Qleb_spec pz (z + h / 2)); cbn; try reflexivity; exfalso; lra.
+    + intros [U|[V|Z]]; [rewrite Out by tauto; reflexivity|rewrite Out by tauto; reflexivity|].
+      destruct (Qleb_spec (z - h / 2) pz), (Qleb_spec pz (z + h / 2)); cbn; rewrite ?andb_false_r; try reflexivity; exfalso; lra.
+Qed.
+
+(* the outside selection of a box is the complement *)
+Corollary rect_outside_iff_slabs (x y z w l h c s k u v : Q) (p : point) :
+  0 < w -> 0 < l -> 0 <= h -> 0 < k -> ~ (c == 0 /\ s == 0) ->
+  px p == c * u - s * v + x -> py p == s * u + c * v + y ->
+  let b := yaw_box x y z w l h c s in
+  (qabs u < k * (l / 2) /\ qabs v < k * (w / 2) /\ z_in z h (prest p) -> box_selected b k false p = false) /\
+  (k * (l / 2) < qabs u \/ k * (w / 2) < qabs v \/ z_out z h (prest p) -> box_selected b k false p = true).
+Proof.
+  intros Hw Hl Hh Hk Hcs PX PY b.
+  destruct (rect_inside_iff_slabs x y z w l h c s k u v p Hw Hl Hh Hk Hcs PX PY) as [I O].
+  fold b in I, O. unfold box_selected in *. rewrite selected_partition in I, O.
+  split; intros H; [specialize (I H)|specialize (O H)]; destruct (selected _ false p); auto; discriminate.
+Qed.
+
+(* coordinates of an arbitrary point in the box frame *)
+Definition local_u (x y c s : Q) (p : point) : Q := (c * (px p - x) + s * (py p - y)) / (c * c + s * s).
+Definition local_v (x y c s : Q) (p : point) : Q := (- s * (px p - x) + c * (py p - y)) / (c * c + s * s).
+
+Lemma norm_pos c s : ~ (c == 0 /\ s == 0) -> 0 < c * c + s * s.
+Proof.
+  intros H. destruct (Qlt_le_dec 0 (c * c + s * s)); [assumption|].
+  exfalso. apply H. split; nra.
+Qed.
+
+Lemma local_uv_correct x y c s p : ~ (c == 0 /\ s == 0) ->
+  px p == c * local_u x y c s p - s * local_v x y c s p + x /\
+  py p == s * local_u x y c s p + c * local_v x y c s p + y.
+Proof.
+  intros H. pose proof (norm_pos c s H). unfold local_u, local_v. split; field; lra.
+Qed.
+
+(* the same statement for every row of a cloud, in world coordinates *)
+Corollary rect_inside_iff_slabs_world (x y z w l h c s k : Q) (p : point) :
+  0 < w -> 0 < l -> 0 <= h -> 0 < k -> ~ (c == 0 /\ s == 0) ->
+  let b := yaw_box x y z w l h c s in
+  let u := local_u x y c s p in
+  let v := local_v x y c s p in
+  (qabs u < k * (l / 2) /\ qabs v < k * (w / 2) /\ z_in z h (prest p) -> box_selected b k true p = true) /\
+  (k * (l / 2) < qabs u \/ k * (w / 2) < qabs v \/ z_out z h (prest p) -> box_selected b k true p = false).
+Proof.
+  intros Hw Hl Hh Hk Hcs. destruct (local_uv_correct x y c s p Hcs) as [PX PY].
+  exact (rect_inside_iff_slabs x y z w l h c s k _ _ p Hw Hl Hh Hk Hcs PX PY).
+Qed.
+
+(* ------------------------------------------------------------------------------------------ *)
+(* 7. enlarging the scale never removes an inside point                                        *)
+(* ------------------------------------------------------------------------------------------ *)
+Lemma vred_eq v v' : vx v == vx v' -> vy v == vy v' -> vz v == vz v' -> vred v = vred v'.
+Proof.
+  intros A B C. unfold vred. rewrite (Qred_complete _ _ A), (Qred_complete _ _ B), (Qred_complete _ _ C). reflexivity.
+Qed.
+
+Lemma box_corners_scale_eq b k k' : k == k' -> box_corners b k = box_corners b k'.
+Proof.
+  intros H. unfold box_corners, footprint_local. cbn [map app].
+  repeat (apply f_equal2; [apply vred_eq; unfold to_world, vx, vy, vz; cbn [fst snd]; rewrite ?H; reflexivity|]).
+  reflexivity.
+Qed.
+
+Lemma qabs_le_not_gt x A : ~ A < qabs x -> qabs x <= A.
+Proof. intros H. destruct (Qlt_le_dec A (qabs x)); [contradiction|assumption]. Qed.
+
+Theorem scale_monotone (x y z w l h c s k k' : Q) (p : point) :
+  0 < w -> 0 < l -> 0 <= h -> 0 < k -> k <= k' -> ~ (c == 0 /\ s == 0) ->
+  let b := yaw_box x y z w l h c s in
+  box_selected b k true p = true -> box_selected b k' true p = true.
+Proof.
+  intros Hw Hl Hh Hk Hkk Hcs b Sel.
+  destruct (Qlt_le_dec k k') as [Lt|Ge].
+  - destruct (rect_inside_iff_slabs_world x y z w l h c s k p Hw Hl Hh Hk Hcs) as [_ O].
+    destruct (rect_inside_iff_slabs_world x y z w l h c s k' p Hw Hl Hh) as [Ins _]; [lra|exact Hcs|].
+    cbv zeta in O, Ins. fold b in O, Ins. apply Ins.
+    assert (L2 : 0 < l / 2) by (apply Qlt_shift_div_l; lra).
+    assert (W2 : 0 < w / 2) by (apply Qlt_shift_div_l; lra).
+    assert (NU : ~ k * (l / 2) < qabs (local_u x y c s p)) by (intros U; rewrite O in Sel by tauto; discriminate).
+    assert (NV : ~ k * (w / 2) < qabs (local_v x y c s p)) by (intros U; rewrite O in Sel by tauto; discriminate).
+    assert (NZ : ~ z_out z h (prest p)) by (intros U; rewrite O in Sel by tauto; discriminate).
+    apply qabs_le_not_gt in NU. apply qabs_le_not_gt in NV.
+    split; [apply Qle_lt_trans with (k * (l / 2)); [assumption|apply Qmult_lt_compat_r; assumption]|].
+    split; [apply Qle_lt_trans with (k * (w / 2)); [assumption|apply Qmult_lt_compat_r; assumption]|].
+    unfold z_in, z_out in *. destruct (prest p) as [|pz r]; [exact I|].
+    split; [destruct (Qlt_le_dec pz (z - h / 2)); [exfalso; tauto|assumption]
+           |destruct (Qlt_le_dec (z + h / 2) pz); [exfalso; tauto|assumption]].
+  - assert (E : k == k') by lra. unfold box_selected in *. rewrite <- (box_corners_scale_eq b k k' E). exact Sel.
+Qed.
+
+Lemma filter_incl_impl {A} (f g : A -> bool) l : (forall x, f x = true -> g x = true) -> incl (filter f l) (filter g l).
+Proof. intros H x Hx. apply filter_In in Hx. apply filter_In. split; [tauto|apply H; tauto]. Qed.
+
+Lemma filter_length_le {A} (f g : A -> bool) l :
+  (forall x, f x = true -> g x = true) -> (length (filter f l) <= length (filter g l))%nat.
+Proof.
+  intros H. induction l as [|x t IH]; cbn [filter]; [lia|].
+  destruct (f x) eqn:Fx; [rewrite (H x Fx); cbn; lia|destruct (g x); cbn; lia].
+Qed.
+
+(* ... hence: more rows, a larger count, and detection is kept *)
+Theorem scale_monotone_cloud (x y z w l h c s k k' : Q) (cloud : list point) :
+  0 < w -> 0 < l -> 0 <= h -> 0 < k -> k <= k' -> ~ (c == 0 /\ s == 0) ->
+  let b := yaw_box x y z w l h c s in
+  (forall i, In i (box_crop_idx b k true cloud) -> In i (box_crop_idx b k' true cloud)) /\
+  incl (box_crop b k true cloud) (box_crop b k' true cloud) /\
+  (inside_num b k cloud <= inside_num b k' cloud)%nat.
+Proof.
+  intros Hw Hl Hh Hk Hkk Hcs b.
+  assert (M : forall p, box_selected b k true p = true -> box_selected b k' true p = true)
+    by (intros p; apply scale_monotone; assumption).
+  split; [|split].
+  - intros i. unfold box_crop_idx. rewrite !idx_filter_In. intros [q [Hq Hs]]. exists q. split; [exact Hq|apply M; exact Hs].
+  - apply filter_incl_impl, M.
+  - apply filter_length_le, M.
+Qed.
+
+(* ------------------------------------------------------------------------------------------ *)
+(* 8. exactness for a whole cloud                                                              *)
+(* ------------------------------------------------------------------------------------------ *)
+Record yaw_params := mkYaw { yx : Q; yy : Q; yz : Q; yw : Q; yl : Q; yh : Q; yc : Q; ys : Q }.
+
+Definition box_of (q : yaw_params) : box := yaw_box (yx q) (yy q) (yz q) (yw q) (yl q) (yh q) (yc q) (ys q).
+
+Definition yaw_ok (q : yaw_params) : Prop :=
+  0 < yw q /\ 0 < yl q /\ 0 <= yh q /\ ~ (yc q == 0 /\ ys q == 0).
+
+(* strictly inside the footprint scaled by k (height not scaled, z range closed) / strictly outside *)
+Definition slab_in (q : yaw_params) (k : Q) (p : point) : Prop :=
+  qabs (local_u (yx q) (yy q) (yc q) (ys q) p) < k * (yl q / 2) /\
+  qabs (local_v (yx q) (yy q) (yc q) (ys q) p) < k * (yw q / 2) /\
+  z_in (yz q) (yh q) (prest p).
+Definition slab_out (q : yaw_params) (k : Q) (p : point) : Prop :=
+  k * (yl q / 2) < qabs (local_u (yx q) (yy q) (yc q) (ys q) p) \/
+  k * (yw q / 2) < qabs (local_v (yx q) (yy q) (yc q) (ys q) p) \/
+  z_out (yz q) (yh q) (prest p).
+
+Lemma slab_in_out_excl q k p : slab_in q k p -> slab_out q k p -> False.
+Proof.
+  unfold slab_in, slab_out, z_in, z_out. intros (U & V & Z) [U'|[V'|Z']]; try lra.
+  destruct (prest p); [exact Z'|lra].
+Qed.
+
+Theorem box_selected_slabs q k p : yaw_ok q -> 0 < k ->
+  (slab_in q k p -> box_selected (box_of q) k true p = true) /\
+  (slab_out q k p -> box_selected (box_of q) k true p = false).
+Proof.
+  intros (Hw & Hl & Hh & Hcs) Hk.
+  exact (rect_inside_iff_slabs_world (yx q) (yy q) (yz q) (yw q) (yl q) (yh q) (yc q) (ys q) k p Hw Hl Hh Hk Hcs).
+Qed.
+
+(* for a cloud without points on the box boundary, the inside rows are exactly the rows that are
+   geometrically inside, and the count is their number *)
+Theorem box_crop_exact q k cloud : yaw_ok q -> 0 < k ->
+  (forall p, In p cloud -> slab_in q k p \/ slab_out q k p) ->
+  (forall p, In p (box_crop (box_of q) k true cloud) <-> In p cloud /\ slab_in q k p) /\
+  (forall p, In p (box_crop (box_of q) k false cloud) <-> In p cloud /\ slab_out q k p).
+Proof.
+  intros Hq Hk Hb. split; intros p; unfold box_crop; rewrite filter_In;
+    (split; [intros [Hp Hs]|intros [Hp Hs]]; split; try assumption);
+    destruct (box_selected_slabs q k p Hq Hk) as [I O].
+  - destruct (Hb p Hp) as [H|H]; [assumption|]. rewrite (O H) in Hs. discriminate.
+  - apply I. exact Hs.
+  - destruct (Hb p Hp) as [H|H]; [|assumption]. unfold box_selected in *. rewrite selected_partition in I.
+    rewrite Hs in I. specialize (I H). discriminate.
+  - unfold box_selected in *. rewrite selected_partition in O. specialize (O Hs).
+    destruct (selected _ false p); [reflexivity|discriminate].
+Qed.
